@@ -77,15 +77,42 @@ def _apply(mode, existing, new):
 MODES = ["skip", "append", "overwrite"]
 
 
+def _term_dict(rules_):
+    """terminal rules as the dictionary the library takes (a single unconditioned rule may also be given as a plain list)"""
+    if not rules_:
+        return None
+    if len(rules_) == 1 and not rules_[0][0]:
+        return list(rules_[0][1])
+    return {r: list(ms) for r, ms in rules_}
+
+
+def _term_model(mode, orig, rules_, seq, index):
+    """a terminus follows the residues' rule: unmodified in the *input* -> every matching rule adds its modifications, whatever the
+    mode and however many rules match; modified in the input -> skip keeps it, append adds each, overwrite leaves the last"""
+    cur = list(orig)
+    for r, ms in rules_:
+        if r and index not in targets(seq, r):
+            continue
+        new = [(x, 1) for x in ms]
+        if not orig:
+            cur = cur + new
+        elif mode == "append":
+            cur = cur + new
+        elif mode == "overwrite":
+            cur = list(new)
+    return cur
+
+
 def o_static(seq: str, rules: List[Tuple[str, List[str]]], nrule: Optional[Tuple[str, List[str]]], crule: Optional[Tuple[str, List[str]]],
-             mode_i: int, as_str: bool, nt: bool, ct: bool, excl=(), **pre_flags) -> bool:
+             mode_i: int, as_str: bool, nt: bool, ct: bool, nrule2=None, crule2=None, excl=(), **pre_flags) -> bool:
     pre = [bool(pre_flags.get(f"m{i}", False)) for i in range(len(seq))]
     mode = MODES[mode_i]
     a = _base(seq, pre, nt, ct)
     before = D.dump(a)
     internal = {r: list(ms) for r, ms in rules}
-    nterm = ({nrule[0]: list(nrule[1])} if nrule[0] else list(nrule[1])) if nrule else None
-    cterm = ({crule[0]: list(crule[1])} if crule[0] else list(crule[1])) if crule else None
+    nrules = [r for r in (nrule, nrule2) if r]
+    crules = [r for r in (crule, crule2) if r]
+    nterm, cterm = _term_dict(nrules), _term_dict(crules)
     got = MB.apply_static_mods(a, internal, nterm, cterm, mode=mode, return_type="str" if as_str else "annotation")
     if D.dump(a) != before:
         return _fail(why="apply_static_mods changed its input")
@@ -101,10 +128,8 @@ def o_static(seq: str, rules: List[Tuple[str, List[str]]], nrule: Optional[Tuple
                 m["res"][i] = m["res"][i] + new
             elif mode == "overwrite":
                 m["res"][i] = list(new)                  # (several overwriting rules on one residue: the last one stays)
-    if nrule and (0 in targets(seq, nrule[0]) if nrule[0] else True):
-        m["nt"] = _apply(mode, orig["nt"], [(x, 1) for x in nrule[1]])
-    if crule and ((len(seq) - 1) in targets(seq, crule[0]) if crule[0] else True):
-        m["ct"] = _apply(mode, orig["ct"], [(x, 1) for x in crule[1]])
+    m["nt"] = _term_model(mode, orig["nt"], nrules, seq, 0)
+    m["ct"] = _term_model(mode, orig["ct"], crules, seq, len(seq) - 1)
     gd = D.norm_empty(D.dump(g))
     wd = _dump_model(seq, m)
     if gd != wd:
